@@ -24,6 +24,15 @@ BASES = {
 }
 
 
+def base_seconds(base, rep_name=None):
+    """elapsed seconds at the start of the clock window; 'x32' is the instant at which the
+    representation's decode time crosses 2**32 ticks (tfdt grows from 32 to 64 bits)."""
+    if base == 'x32':
+        ts = common.layouts()[rep_name]['timescale']
+        return max(65, (1 << 32) // ts - 45)
+    return BASES[base]
+
+
 def ast_real():
     from dashlive.utils.timezone import UTC
     return _dt.datetime(*AST0, tzinfo=UTC())
